@@ -118,12 +118,14 @@ def dec_sel(s):
 
 def enc_spec(spec):
     return dict(kind=spec.kind, cols=list(spec.cols), events=spec.events, tab_headers=spec.tab_headers,
-                trailing_nl=spec.trailing_nl)
+                trailing_nl=spec.trailing_nl, impacts=list(spec.impacts))
 
 
 def dec_spec(d):
+    imp = d.get("impacts")
     return rmodel.FileSpec(d["kind"], d["cols"], d["events"], tab_headers=d.get("tab_headers", True),
-                           trailing_nl=d.get("trailing_nl", True))
+                           trailing_nl=d.get("trailing_nl", True),
+                           impacts=imp if imp is not None and len(imp) == len(d["events"]) else None)
 
 
 # ----------------------------------------------------------------------------- generators
@@ -148,6 +150,68 @@ def gen_file(rng, kind, sizes, full_cols=False):
             uid += 1
         events.append(ev)
     return rmodel.FileSpec(kind, cols, events, tab_headers=rng.random() < 0.6)
+
+
+# files with more events than any hash-table / buffer boundary a small file stays below: 9-12, 17, 33-40, 65+
+BIG_CLASSES = [(9, 12), (17, 17), (33, 40), (65, 72)]
+
+
+def distinct_impacts(rng, n):
+    """one impact-parameter token per event, all different, in no particular order"""
+    vals = rng.sample(range(0, 8 * max(n, 4) + 40), n)
+    return ["%.3f" % (0.125 * v) for v in vals]
+
+
+def gen_big_file(rng, kind, n):
+    """n events of 0-2 particles (a fifth of them empty, one of them with a two-digit count now and then); every event
+    carries its own label, footer and impact parameter"""
+    sizes = [0 if rng.random() < 0.2 else rng.randint(1, 2) for _ in range(n)]
+    if rng.random() < 0.3:
+        sizes[rng.randrange(n)] = rng.randint(10, 11)
+    spec = gen_file(rng, kind, sizes, full_cols=True)
+    spec.impacts = distinct_impacts(rng, n)
+    return spec
+
+
+def big_selectors(rng, n, k):
+    """k selectors for a file of n > 8 events, biased to ranges that straddle a multiple of 8 / 16 / 32 / 64 (short: 2-4
+    events, and 5-19 events), to both ends of the file and to single events next to those boundaries"""
+    def clip(lo, hi):
+        return (max(lo, 0), min(hi, n - 1))
+    marks = list(range(8, n, 8))
+    short, longer, singles = [], [], []
+    for m in marks:
+        short += [clip(m - 1, m), clip(m - 2, m + 1), clip(m - 3, m), clip(m - 1, m + 2), clip(m - 2, m)]
+        longer += [clip(m - 3, m + 3), clip(m - 9, m + 8), clip(m - 1, m + 5), clip(m - 12, m)]
+        singles += [m - 1, m]
+    ends = [0, n - 1, (0, 0), (n - 1, n - 1), (0, 1), (n - 2, n - 1), (0, n - 1), (1, n - 2), (0, n // 2), (n // 2, n - 1),
+            (n - 4, n - 1), (0, 3)]
+    pow2 = [m for m in marks if m & (m - 1) == 0]
+    out = []
+    # always: a short straddle of the lowest and of the highest boundary, a longer one of the highest power of two
+    out.append(rng.choice([clip(marks[0] - 1, marks[0]), clip(marks[0] - 2, marks[0] + 1), clip(marks[0] - 3, marks[0])]))
+    out.append(rng.choice([clip(marks[-1] - 1, marks[-1]), clip(marks[-1] - 2, marks[-1] + 1)]))
+    if pow2[-1] >= 32:
+        out.append(rng.choice([clip(pow2[-1] - 3, pow2[-1] + 3), clip(pow2[-1] - 9, pow2[-1] + 8)]))
+    tries = 0
+    while len(out) < k:
+        r = rng.random()
+        if r < 0.35:
+            c = rng.choice(short)
+        elif r < 0.5:
+            c = rng.choice(longer)
+        elif r < 0.6:
+            c = rng.choice(singles)
+        elif r < 0.8:
+            c = rng.choice(ends)
+        else:
+            a = rng.randrange(n)
+            c = (a, min(n - 1, a + rng.choice([0, 1, 2, 3, 5, 9, 18, 30])))
+        tries += 1
+        if (isinstance(c, tuple) and c[0] > c[1]) or (c in out and tries < 20 * k):
+            continue
+        out.append(c)
+    return out[:k] if k >= 3 else out
 
 
 def gen_sizes(rng, pattern):
@@ -327,6 +391,19 @@ def build_cases(ctx):
         for _ in range(6):
             sel = rng.choice(valid_selectors(n))
             cases.append((spec, sel, rng.choice([None, gen_calls(rng, kind)])))
+    # files with 9-12, 17, 33-40, 65+ events: sampled, boundary-biased selectors
+    classes = list(BIG_CLASSES)
+    if ctx.thorough:
+        classes = classes * 6 + [(129, 136)]
+    kinds = ["oscar2013", "extended", "ascii", "jetscape", "jetscapeP"]
+    rng.shuffle(kinds)
+    for i, (lo, hi) in enumerate(classes):
+        kind = kinds[i % len(kinds)]
+        n = rng.randint(lo, hi)
+        spec = gen_big_file(rng, kind, n)
+        filt = gen_calls(rng, kind)
+        for j, sel in enumerate(big_selectors(rng, n, 9 if not ctx.thorough else 14)):
+            cases.append((spec, sel, None if j % 3 != 2 else rng.choice([filt, [("charged_particles", ())]])))
     return cases
 
 
@@ -351,11 +428,16 @@ def correspond(ctx):
     rng = ctx.rng
     ctx.rule = ("files of every kind (Oscar2013, Extended 20/22 columns, ASCII with random/full column sets, JETSCAPE hadron/"
                 "parton, tab/space headers) with EVERY pattern of empty events for 1..4 events (thorough: all 30 patterns x 5 kinds; "
-                "quick: a sample) plus some 5-7 event files; every valid selector (each k, each a<=b) and `all`; invalid selectors "
+                "quick: a sample) plus some 5-7 event files; every valid selector (each k, each a<=b) and `all`; files with 9-12, 17, "
+                "33-40, 65+ events (every event its own impact parameter, footer, label) with sampled selectors biased to ranges "
+                "straddling multiples of 8/16/32/64 and to both ends; invalid selectors "
                 "(out of range, negative, reversed); filters none / {} / random dictionaries over the keys the class supports / "
                 "an all-removing cut.  Compared: returned object, particle_list(), impact_parameters() (real) vs model, model vs "
                 "its spec side (slice + ctorFilter), and checkOscar/checkJetscape on the real bytes.  non-trivial = valid proper "
-                "sub-selection of a file that has an empty event, or any valid selection with filters")
+                "sub-selection of a file that has an empty event, or any valid selection with filters.  Oracle: SESSIONS — one file "
+                "on disk / one nested list object is re-used for all constructor calls of a case in random order (reference load "
+                "first, in the middle or last); the input is compared with a deep snapshot after every call (file bytes; list and "
+                "particle identities, lengths, data_), objects built earlier are re-observed after the later calls")
     cases = [(s, sel, c) for s, sel, c, _ in corpus_cases()] + build_cases(ctx)
     # make sure every supported filter key occurs at least once per tier
     missing = [k for k in sorted(set(OSCAR_KEYS) | set(JETSCAPE_KEYS)) if k not in covered_keys(cases)]
@@ -483,6 +565,12 @@ def window(sel, n):
     return sel, sel
 
 
+def opt_tag(sel, calls):
+    """which constructor options a call used"""
+    t = [x for x, on in (("events", sel is not None), ("filters", calls is not None)) if on]
+    return "+".join(t) or "no-options"
+
+
 def ref_ctor_filter(calls, selected):
     """constructor-filter semantics from the documented predicates: per event apply the filters in order; an event
     that was non-empty and became empty is dropped.  Returns None when a reference predicate is undefined."""
@@ -513,34 +601,49 @@ def real_filters_raise(calls, selected):
     return False
 
 
-def open_objs(spec, sel, calls):
-    """(full object, selected object or exception)"""
-    ctor, path = rmodel.open_real(spec)
-    try:
-        full = ctor()
-        kw = {"events": sel}
-        if calls is not None:
-            kw["filters"] = rmodel.filters_dict(calls)
-        ctor2, path2 = rmodel.open_real(spec, **kw)
+# ---- observations of a built object (taken when it is built, and again after later constructions)
+def observe_obj(obj):
+    evs = obj.particle_objects_list()
+    o = dict(ids=[[id(p) for p in ev] for ev in evs],
+             data=[[np.array(p.data_, dtype=float, copy=True) for p in ev] for ev in evs],
+             ne=obj.num_events())
+    c = obj.num_output_per_event()
+    o["counts"] = repr(c) if isinstance(c, list) else np.asarray(c).tolist()
+    if hasattr(obj, "impact_parameters"):
         try:
-            try:
-                obj = ctor2()
-            except Exception as e:
-                obj = e
-        finally:
-            os.unlink(path2)
-    finally:
-        os.unlink(path)
-    return full, obj
+            o["impact_parameters"] = [float(x) for x in obj.impact_parameters()]
+        except Exception as e:
+            o["impact_parameters"] = "raises " + type(e).__name__
+    try:
+        o["particle_list"] = copy.deepcopy(obj.particle_list())
+    except Exception as e:
+        o["particle_list"] = "raises " + type(e).__name__
+    return o
 
 
-def oracle_file(spec, sel, calls):
-    """None | (key, what) — the property on the real Oscar / Jetscape class"""
+def obs_diff(o1, o2):
+    """name of the first observable that differs, or None"""
+    if o1["ids"] != o2["ids"]:
+        return "events"
+    for e1, e2 in zip(o1["data"], o2["data"]):
+        for d1, d2 in zip(e1, e2):
+            if not np.array_equal(d1, d2, equal_nan=True):
+                return "particle-data"
+    for k in ("ne", "counts", "impact_parameters"):
+        if o1.get(k) != o2.get(k):
+            return {"ne": "num_events"}.get(k, k)
+    if not rows_equal(o1["particle_list"], o2["particle_list"]) and o1["particle_list"] != o2["particle_list"]:
+        return "particle_list"
+    return None
+
+
+def check_file(spec, full, obj, sel, calls):
+    """None | "skip" | (key, what) — the property for one object `obj` = X(path, events=sel[, filters]) against the
+    full load `full` of the same file (reference: slice it in Python; with filters the constructor-filter semantics)"""
     cls = "Jetscape" if spec.is_jetscape() else "Oscar"
     n = len(spec.events)
     a, b = window(sel, n)
     st = ("one" if not isinstance(sel, tuple) else "range") + ("+filters" if calls is not None else "")
-    full, obj = open_objs(spec, sel, calls)
     fev = full.particle_objects_list()
     fcounts = np.asarray(full.num_output_per_event())
     selected = fev[a:b + 1]
@@ -578,26 +681,22 @@ def oracle_file(spec, sel, calls):
     gc = np.asarray(obj.num_output_per_event())
     if gc.ndim != 2 or [[int(r[0]), int(r[1])] for r in gc] != exp_counts:
         return (f"{cls}:counts:{st}", f"events={sel}: num_output_per_event()={gc.tolist()}, expected {exp_counts}")
-    if cls == "Oscar" and calls is None:
-        imp = [float(x) for x in obj.impact_parameters()]
-        want = [float(x) for x in full.impact_parameters()[a:b + 1]]
-        if imp != want:
-            return (f"Oscar:impact_parameters:{st}", f"events={sel}: impact_parameters()={imp}, selected events have {want}")
-    if cls == "Oscar" and calls is not None:
-        # every kept event keeps its own impact parameter
-        kept_idx = []
-        for i, ev in enumerate(selected):
-            cur = ref_ctor_filter(calls, [ev])
-            if cur:
-                kept_idx.append(a + i)
+    if cls == "Oscar":
+        # every held event keeps its own impact parameter, in event order
+        kept_idx = list(range(a, b + 1))
+        if calls is not None:
+            kept_idx = [a + i for i, ev in enumerate(selected) if ref_ctor_filter(calls, [ev])]
         imp = [float(x) for x in obj.impact_parameters()]
         want = [float(full.impact_parameters()[i]) for i in kept_idx]
+        file_imp = [float(x) for x in spec.impacts]
+        if want != [file_imp[i] for i in kept_idx]:
+            return ("Oscar:impact_parameters:full-load", f"full load: impact_parameters() at positions {kept_idx} = {want}, the file says "
+                    f"{[file_imp[i] for i in kept_idx]}")
         if imp != want:
             key = "Oscar:impact_parameters:event-removed-by-ctor-filter" if len(kept_idx) < len(selected) \
                 else f"Oscar:impact_parameters:{st}"
-            return (key, f"event sizes {[len(e) for e in fev]}, events={sel}, filters={enc_calls(calls)}: impact_parameters()={imp} but the "
-                    f"kept events (file positions {kept_idx}) have {want} (labels are renumbered after an event is removed and the "
-                    f"impact parameters are looked up by label)")
+            return (key, f"{len(fev)} events, events={sel}, filters={enc_calls(calls)}: impact_parameters()={imp} but the "
+                    f"held events (file positions {kept_idx}) have {want}")
     try:
         pl = obj.particle_list()
     except Exception as e:
@@ -610,18 +709,110 @@ def oracle_file(spec, sel, calls):
     return None
 
 
-def oracle_pos(rng, sizes, sel, calls):
-    """ParticleObjectStorer(list, events=sel[, filters]) vs slicing the list"""
-    from sparkx.ParticleObjectStorer import ParticleObjectStorer
-    evs = make_list(rng, sizes)
-    n = len(evs)
-    a, b = window(sel, n)
-    st = "events="
-    work = [list(ev) for ev in evs]
-    kw = {"events": sel}
-    if calls is not None:
-        kw["filters"] = rmodel.filters_dict(calls)
-    selected = evs[a:b + 1]
+def file_session(spec, ops, refpos=0):
+    """One file on disk, used for every constructor call of the case: the calls `ops` = [(sel, calls), …] in the given
+    order with the reference load X(path) inserted at position `refpos`.  After EVERY call the file must be byte-identical;
+    after ALL calls every object built earlier must still show what it showed when it was built; then each object is
+    compared with the slice of the reference.  Returns (failures [(key, what)], number of skipped ops)."""
+    from sparkx.Oscar import Oscar
+    from sparkx.Jetscape import Jetscape
+    cls = "Jetscape" if spec.is_jetscape() else "Oscar"
+    _, path = rmodel.open_real(spec)
+    fails, skipped = [], 0
+    try:
+        bytes0 = open(path, "rb").read()
+        seq = list(range(len(ops)))
+        seq.insert(max(0, min(refpos, len(ops))), "ref")
+        built = {}
+        tainted = False
+        for it in seq:
+            sel, calls = (None, None) if it == "ref" else ops[it]
+            kw = {}
+            if sel is not None:
+                kw["events"] = sel
+            if calls is not None:
+                kw["filters"] = rmodel.filters_dict(calls)
+            if spec.kind == "jetscapeP":
+                kw["particletype"] = "parton"
+            try:
+                with np.errstate(all="ignore"):
+                    obj = Jetscape(path, **kw) if spec.is_jetscape() else Oscar(path, **kw)
+            except Exception as e:
+                obj = e
+            now = open(path, "rb").read()
+            if now != bytes0:
+                fails.append((f"input-modified:{cls}:{opt_tag(sel, calls)}:file-bytes",
+                              f"{cls}(path, events={sel}, filters={enc_calls(calls)}) changed the file on disk "
+                              f"({len(bytes0)} -> {len(now)} bytes)"))
+                tainted = True
+                break          # everything after this call would be judged on a modified input
+            built[it] = (obj, None if isinstance(obj, Exception) else observe_obj(obj))
+        for it in [x for x in seq if x in built]:
+            obj, o = built[it]
+            if o is not None:
+                d = obs_diff(o, observe_obj(obj))
+                if d:
+                    sel, calls = (None, None) if it == "ref" else ops[it]
+                    fails.append((f"earlier-object-changed:{cls}:{d}",
+                                  f"{cls}(path, events={sel}, filters={enc_calls(calls)}) shows a different {d} after the later "
+                                  f"constructor calls {[('ref' if x == 'ref' else ops[x][0]) for x in seq[seq.index(it) + 1:]]} on the same file"))
+        if tainted:
+            return fails, skipped
+        full = built["ref"][0]
+        if isinstance(full, Exception):
+            fails.append((f"{cls}:full-load-raises", f"{cls}(path) raised {type(full).__name__}: {full}"))
+            return fails, skipped
+        for i, (sel, calls) in enumerate(ops):
+            r = check_file(spec, full, built[i][0], sel, calls)
+            if r == "skip":
+                skipped += 1
+            elif r is not None:
+                fails.append(r)
+    finally:
+        try:
+            os.unlink(path)
+        except OSError:
+            pass
+    return fails, skipped
+
+
+def oracle_file(spec, sel, calls):
+    """None | "skip" | (key, what) for a single selection (reference load first)"""
+    fails, skipped = file_session(spec, [(sel, calls)], 0)
+    if fails:
+        return fails[0]
+    return "skip" if skipped else None
+
+
+# ---- the particle-object storer: ONE nested list, re-used for every constructor call of the case
+def list_snapshot(evs):
+    return dict(n=len(evs), inner=[id(e) for e in evs], lens=[len(e) for e in evs], pids=[[id(p) for p in e] for e in evs],
+                data=[[np.array(p.data_, dtype=float, copy=True) for p in e] for e in evs],
+                keep=[list(e) for e in evs])          # pristine copies of the inner lists (same particle objects)
+
+
+def list_diff(s0, evs):
+    """what about the caller's nested list differs from the snapshot, or None"""
+    if len(evs) != s0["n"]:
+        return "outer-length", f"{s0['n']} -> {len(evs)} events"
+    if [id(e) for e in evs] != s0["inner"]:
+        return "event-list-replaced", "an inner event list is a different object"
+    if [len(e) for e in evs] != s0["lens"]:
+        return "event-length", f"event sizes {s0['lens']} -> {[len(e) for e in evs]}"
+    if [[id(p) for p in e] for e in evs] != s0["pids"]:
+        return "particle-replaced", "an event holds different particle objects"
+    for e, de in zip(evs, s0["data"]):
+        for p, d in zip(e, de):
+            if not np.array_equal(np.asarray(p.data_, dtype=float), d, equal_nan=True):
+                return "particle-data", "data_ of a particle changed"
+    return None
+
+
+def check_pos(pristine, obj, sel, calls):
+    """None | "skip" | (key, what): ParticleObjectStorer(list, events=sel[, filters]) against slicing the pristine list"""
+    n = len(pristine)
+    a, b = (0, n - 1) if sel is None else window(sel, n)
+    selected = pristine[a:b + 1]
     if calls is None:
         exp = selected
     else:
@@ -634,16 +825,14 @@ def oracle_pos(rng, sizes, sel, calls):
                 except Exception:
                     return "skip"
             exp.append(cur[0] if cur else [])
-    try:
-        obj = ParticleObjectStorer(work, **kw)
-    except Exception as e:
-        if calls is not None and isinstance(e, (ValueError, TypeError)):
+    if isinstance(obj, Exception):
+        if calls is not None and isinstance(obj, (ValueError, TypeError)):
             return "skip"
-        return ("ParticleObjectStorer(events=):constructor-raises", f"events={sel}: {type(e).__name__}: {e}")
+        return ("ParticleObjectStorer(events=):constructor-raises", f"events={sel}: {type(obj).__name__}: {obj}")
     got = obj.particle_objects_list()
     if len(got) != len(exp) or any(len(x) != len(y) or any(p is not q for p, q in zip(x, y)) for x, y in zip(got, exp)):
-        return ("ParticleObjectStorer(events=):events", f"events={sel}: held events {[len(e) for e in got]} are not the selected "
-                f"(filtered) events {[len(e) for e in exp]} (compared by identity)")
+        return ("ParticleObjectStorer(events=):events", f"events={sel}, filters={enc_calls(calls)}: held events {[len(e) for e in got]} "
+                f"are not the selected (filtered) events {[len(e) for e in exp]} (compared by identity)")
     if obj.num_events() != len(exp):
         return ("ParticleObjectStorer(events=):num_events", f"{n} events, events={sel}: num_events()={obj.num_events()}, expected {len(exp)}")
     c = obj.num_output_per_event()
@@ -666,6 +855,96 @@ def oracle_pos(rng, sizes, sel, calls):
     if not rows_equal(pl, want_pl):
         return ("ParticleObjectStorer(events=):particle_list", f"events={sel}: particle_list() differs from the selected events' rows")
     return None
+
+
+def pos_session(pseed, sizes, ops, refpos=0):
+    """The same nested list object is handed to every constructor call (ops in order, the full reference load at
+    `refpos`).  After every call the caller's list must be unmodified (list identities, lengths, particle identities,
+    data_); after all calls earlier objects are re-observed; every object is compared with the slice of the pristine list."""
+    import random
+    from sparkx.ParticleObjectStorer import ParticleObjectStorer
+    evs = make_list(random.Random(pseed), sizes)
+    s0 = list_snapshot(evs)
+    pristine = s0["keep"]
+    fails, skipped = [], 0
+    seq = list(range(len(ops)))
+    seq.insert(max(0, min(refpos, len(ops))), "ref")
+    built = {}
+    tainted = False
+    for it in seq:
+        sel, calls = (None, None) if it == "ref" else ops[it]
+        kw = {}
+        if sel is not None:
+            kw["events"] = sel
+        if calls is not None:
+            kw["filters"] = rmodel.filters_dict(calls)
+        try:
+            with np.errstate(all="ignore"):
+                obj = ParticleObjectStorer(evs, **kw)
+        except Exception as e:
+            obj = e
+        d = list_diff(s0, evs)
+        if d:
+            fails.append((f"input-modified:ParticleObjectStorer:{opt_tag(sel, calls)}:{d[0]}",
+                          f"ParticleObjectStorer(list, events={sel}, filters={enc_calls(calls)}) modified the caller's list of event "
+                          f"sizes {s0['lens']}: {d[1]}"))
+            tainted = True
+            break              # everything after this call would be judged on a modified input
+        built[it] = (obj, None if isinstance(obj, Exception) else observe_obj(obj))
+    for it in [x for x in seq if x in built]:
+        obj, o = built[it]
+        if o is not None:
+            d = obs_diff(o, observe_obj(obj))
+            if d:
+                sel, calls = (None, None) if it == "ref" else ops[it]
+                later = [("ref" if x == "ref" else (ops[x][0], enc_calls(ops[x][1]))) for x in seq[seq.index(it) + 1:]]
+                fails.append((f"earlier-object-changed:ParticleObjectStorer:{d}",
+                              f"ParticleObjectStorer(list, events={sel}, filters={enc_calls(calls)}) built from a list of event sizes "
+                              f"{s0['lens']} shows a different {d} after the later constructor calls {later} on the same list"))
+    for it in ([] if tainted else seq):
+        sel, calls = (None, None) if it == "ref" else ops[it]
+        r = check_pos(pristine, built[it][0], sel, calls)
+        if r == "skip":
+            skipped += 1
+        elif r is not None:
+            fails.append(r)
+    return fails, skipped
+
+
+POS_FILTERS = ["charged_particles", "uncharged_particles", "pT_cut", "participants", "spectators", "remove_photons", "keep_hadrons"]
+
+
+def first_fail(fails, seen):
+    """input-modified first, then earlier-object-changed, then the property clauses; only keys not yet reported"""
+    def rank(k):
+        return 0 if k.startswith("input-modified") else 1 if k.startswith("earlier-object-changed") else 2
+    for f in sorted(fails, key=lambda f: rank(f[0])):
+        if f[0] not in seen:
+            return f
+    return None
+
+
+def shrink_ops(run, ops, refpos, key):
+    """greedy: drop constructor calls while the same key is still reported; run(ops, refpos) -> failures"""
+    def bad(o, r):
+        try:
+            return any(k == key for k, _ in run(o, r)[0])
+        except Exception:
+            return False
+    if not bad(ops, refpos):
+        return ops, refpos
+    changed = True
+    while changed and len(ops) > 1:
+        changed = False
+        for i in range(len(ops)):
+            cand = ops[:i] + ops[i + 1:]
+            for r in (min(refpos, len(cand)), 0, len(cand)):
+                if bad(cand, r):
+                    ops, refpos, changed = cand, r, True
+                    break
+            if changed:
+                break
+    return ops, refpos
 
 
 def shrink_file(spec, sel, calls, key):
@@ -694,16 +973,18 @@ def shrink_file(spec, sel, calls, key):
         _, b = window(sel, n)
         if n - 1 > b:
             cand = copy.deepcopy(cur_s)
-            cand.events = cand.events[:-1]
-            cand.labels = cand.labels[:-1]
-            cand.impacts = cand.impacts[:-1]
+            cand.events = cand.events[:b + 1]
+            cand.labels = cand.labels[:b + 1]
+            cand.impacts = cand.impacts[:b + 1]
             if fails(cand, sel, cur_c):
                 cur_s, changed = cand, True
                 continue
+        budget = 60
         for i in range(len(cur_s.events)):
             for j in range(len(cur_s.events[i])):
-                if len(cur_s.events[i]) <= 1:
+                if len(cur_s.events[i]) <= 1 or budget <= 0:
                     continue
+                budget -= 1
                 cand = copy.deepcopy(cur_s)
                 del cand.events[i][j]
                 if fails(cand, sel, cur_c):
@@ -714,63 +995,138 @@ def shrink_file(spec, sel, calls, key):
     return cur_s, sel, cur_c
 
 
+def gen_ops_small(rng, kind, n):
+    ops = []
+    for _ in range(rng.choice([1, 1, 2, 3, 4])):
+        r = rng.random()
+        calls = None if r < 0.4 else ([("multiplicity_cut", ((50, None),))] if r < 0.47 else gen_calls(rng, kind))
+        ops.append((rng.choice(valid_selectors(n)), calls))
+    return ops
+
+
+def gen_ops_big(rng, kind, n, k):
+    ops = []
+    for sel in big_selectors(rng, n, k):
+        r = rng.random()
+        calls = None if r < 0.6 else ([("charged_particles", ())] if r < 0.75 else gen_calls(rng, kind))
+        ops.append((sel, calls))
+    return ops
+
+
 def search(ctx, budget_s):
     rng = ctx.rng
     t0 = time.time()
-    nfile = npos = nskip = 0
+    nfile = nsess = npos = nskip = nbig = 0
     seen = set()
-    # corpus first
-    todo = [(s, sel, c) for s, sel, c, _ in corpus_cases() if sel is not None and "invalid" not in sel_tag(sel, len(s.events))]
     pats = all_patterns(4)
     limit = (4000 if ctx.thorough else 260) * (4 if ctx.broken else 1)
+    # corpus first, then one large file per size class, then random sessions (every 6th on a large file)
+    todo = [(s, [(sel, c)], 0) for s, sel, c, _ in corpus_cases() if sel is not None and "invalid" not in sel_tag(sel, len(s.events))]
+    big_kinds = ["oscar2013", "extended", "ascii", rng.choice(["jetscape", "jetscapeP"])]
+    rng.shuffle(big_kinds)
+    for i, (lo, hi) in enumerate(BIG_CLASSES):
+        kind = big_kinds[i % len(big_kinds)] if i < 3 else rng.choice(KINDS)
+        n = rng.randint(lo, hi)
+        spec = gen_big_file(rng, kind, n)
+        ops = gen_ops_big(rng, kind, n, 10 if not ctx.thorough else 16)
+        todo.append((spec, ops, rng.randint(0, len(ops))))
     while (time.time() - t0 < budget_s and nfile < limit) or todo:
         if todo:
-            spec, sel, calls = todo.pop(0)
+            spec, ops, refpos = todo.pop(0)
+        elif nsess % 6 == 5:
+            kind = rng.choice(KINDS[:3]) if rng.random() < 0.7 else rng.choice(KINDS)
+            lo, hi = rng.choice(BIG_CLASSES + ([(129, 136)] if ctx.thorough else []))
+            n = rng.randint(lo, hi)
+            spec = gen_big_file(rng, kind, n)
+            ops = gen_ops_big(rng, kind, n, rng.randint(6, 12))
+            refpos = rng.randint(0, len(ops))
         else:
-            kind = KINDS[nfile % len(KINDS)]
+            kind = KINDS[nsess % len(KINDS)]
             pat = rng.choice(pats) if rng.random() < 0.85 else tuple(rng.random() < 0.25 for _ in range(rng.randint(5, 7)))
             spec = gen_file(rng, kind, gen_sizes(rng, pat), full_cols=True)
-            sel = rng.choice(valid_selectors(len(pat)))
-            r = rng.random()
-            calls = None if r < 0.4 else ([("multiplicity_cut", ((50, None),))] if r < 0.47 else gen_calls(rng, kind))
-        nfile += 1
-        res = oracle_file(spec, sel, calls)
-        ctx.case(("oracle", spec.kind, tuple(len(e) for e in spec.events), sel, repr(enc_calls(calls)), nfile), True)
-        if res == "skip":
-            nskip += 1
-            continue
-        if isinstance(res, tuple) and res[0] not in seen:
-            seen.add(res[0])
-            s2, sel2, c2 = shrink_file(spec, sel, calls, res[0])
-            r2 = oracle_file(s2, sel2, c2)
-            what = r2[1] if isinstance(r2, tuple) else res[1]
-            ctx.violation(res[0], what, dict(input=dict(kind="file", spec=enc_spec(s2), sel=enc_sel(sel2), calls=enc_calls(c2),
-                                                        text=s2.text()),
-                                             how_to_replay="./check C02 --replay <this file>"))
-    # particle-object storer
+            ops = gen_ops_small(rng, kind, len(pat))
+            refpos = rng.randint(0, len(ops))
+        nsess += 1
+        nfile += len(ops)
+        nbig += len(ops) if len(spec.events) > 8 else 0
+        fails, sk = file_session(spec, ops, refpos)
+        nskip += sk
+        for sel, calls in ops:
+            ctx.case(("oracle", spec.kind, tuple(len(e) for e in spec.events), sel, repr(enc_calls(calls)), nfile), True)
+        ctx.count("oracle/events-in-file/" + ("<=4" if len(spec.events) <= 4 else "5-8" if len(spec.events) <= 8 else
+                                              "9-16" if len(spec.events) <= 16 else "17-32" if len(spec.events) <= 32 else
+                                              "33-64" if len(spec.events) <= 64 else "65+"), len(ops))
+        while True:
+            f = first_fail(fails, seen)
+            if f is None:
+                break
+            key = f[0]
+            seen.add(key)
+            ops2, ref2 = shrink_ops(lambda o, r: file_session(spec, o, r), ops, refpos, key)
+            s2 = spec
+            if len(ops2) == 1 and not key.startswith(("input-modified", "earlier-object-changed")):
+                s2, sel2, c2 = shrink_file(spec, ops2[0][0], ops2[0][1], key)
+                ops2, ref2 = [(sel2, c2)], 0
+            f2 = [x for x in file_session(s2, ops2, ref2)[0] if x[0] == key]
+            what = f2[0][1] if f2 else f[1]
+            inp = dict(kind="file-session", spec=enc_spec(s2), ops=[[enc_sel(se), enc_calls(c)] for se, c in ops2], refpos=ref2,
+                       n_events=len(s2.events), text=s2.text() if len(s2.events) <= 12 else "(see spec)")
+            if len(ops2) == 1:
+                inp.update(sel=enc_sel(ops2[0][0]), calls=enc_calls(ops2[0][1]))
+            ctx.violation(key, what, dict(input=inp, how_to_replay="./check C02 --replay <this file>"))
+    # particle-object storer: sessions on one list object
     limit_pos = 600 if ctx.thorough else 90
     t1 = time.time()
     while npos < limit_pos and time.time() - t1 < max(5, budget_s / 3):
-        pat = rng.choice(pats)
+        pat = rng.choice(pats) if rng.random() < 0.8 else tuple(rng.random() < 0.2 for _ in range(rng.randint(5, 12)))
         sizes = gen_sizes(rng, pat)
-        sel = rng.choice(valid_selectors(len(pat)))
-        calls = None if rng.random() < 0.5 else [pmodel.gen_call(rng, [rng.choice(
-            ["charged_particles", "uncharged_particles", "pT_cut", "participants", "spectators", "remove_photons", "keep_hadrons"])])]
-        npos += 1
-        res = oracle_pos(rng, sizes, sel, calls)
-        ctx.case(("oracle-pos", tuple(sizes), sel, repr(enc_calls(calls)), npos), True)
-        if isinstance(res, tuple) and res[0] not in seen:
-            seen.add(res[0])
-            ctx.violation(res[0], res[1], dict(input=dict(kind="pos", sizes=sizes, sel=enc_sel(sel), calls=enc_calls(calls),
-                                                          seed=ctx.seed),
-                                               how_to_replay="./check C02 --replay <this file>"))
-    ctx.cov["oracle_cases"] = dict(files=nfile, skipped=nskip, particle_object_storer=npos)
+        n = len(pat)
+        ops = []
+        for _ in range(rng.choice([1, 2, 3, 3, 4, 5])):
+            sel = rng.choice(valid_selectors(n) + [None])
+            calls = None if rng.random() < 0.45 else [pmodel.gen_call(rng, [rng.choice(POS_FILTERS)])]
+            ops.append((sel, calls))
+        refpos = rng.randint(0, len(ops))
+        pseed = rng.randrange(2 ** 31)
+        npos += len(ops)
+        fails, sk = pos_session(pseed, sizes, ops, refpos)
+        for sel, calls in ops:
+            ctx.case(("oracle-pos", tuple(sizes), sel, repr(enc_calls(calls)), npos), True)
+        while True:
+            f = first_fail(fails, seen)
+            if f is None:
+                break
+            key = f[0]
+            seen.add(key)
+            ops2, ref2 = shrink_ops(lambda o, r: pos_session(pseed, sizes, o, r), ops, refpos, key)
+            f2 = [x for x in pos_session(pseed, sizes, ops2, ref2)[0] if x[0] == key]
+            ctx.violation(key, f2[0][1] if f2 else f[1],
+                          dict(input=dict(kind="pos-session", sizes=sizes, pseed=pseed, refpos=ref2,
+                                          ops=[[enc_sel(se), enc_calls(c)] for se, c in ops2]),
+                               how_to_replay="./check C02 --replay <this file>"))
+    ctx.cov["oracle_cases"] = dict(files=nfile, file_sessions=nsess, on_files_with_more_than_8_events=nbig, skipped=nskip,
+                                   particle_object_storer=npos)
     ctx.count("oracle/file", nfile)
     ctx.count("oracle/pos", npos)
     cleanup_tmp()
 
 
 # ----------------------------------------------------------------------------- replay
+def report_replay(path, fails):
+    kf = {f["key"] for f in common.known_findings().get("open", []) if f["property"] == "C02"}
+    rc = 0
+    for key, what in fails:
+        if key in kf:
+            print(f"KNOWN-FINDING: property=C02 [{key}] {what}")
+        else:
+            print(f"VIOLATION property=C02 replay={path}")
+            print(f"[{key}] {what}")
+            rc = 1
+    if not fails:
+        print("[C02] replay: property holds on this input now")
+    return rc
+
+
 def replay(ctx, path):
     d = json.loads(open(path).read())
     inp = d.get("input")
@@ -788,15 +1144,26 @@ def replay(ctx, path):
         out = common.run_driver("C02", [f"slice\t{rmodel.sel_enc(sel)}\t{n}"])[0]
         print(f"[C02] code : {real}\n[C02] model: {out}")
         return 0 if real == out else 1
-    if inp["kind"] == "pos":
-        import random
-        res = oracle_pos(random.Random(inp.get("seed", 0)), inp["sizes"], dec_sel(inp["sel"]), dec_calls(inp.get("calls")))
-        if isinstance(res, tuple):
-            print(f"VIOLATION property=C02 replay={path}")
-            print(res[1])
-            return 1
-        print("[C02] replay: property holds on this input now")
-        return 0
+    if inp["kind"] in ("pos", "pos-session"):
+        if inp["kind"] == "pos":
+            ops, pseed, refpos = [(dec_sel(inp["sel"]), dec_calls(inp.get("calls")))], inp.get("seed", 0), 0
+        else:
+            ops = [(dec_sel(o[0]), dec_calls(o[1])) for o in inp["ops"]]
+            pseed, refpos = inp["pseed"], inp.get("refpos", 0)
+        fails, _ = pos_session(pseed, inp["sizes"], ops, refpos)
+        return report_replay(path, fails)
+    if inp["kind"] == "file-session":
+        spec = dec_spec(inp["spec"])
+        ops = [(dec_sel(o[0]), dec_calls(o[1])) for o in inp["ops"]]
+        fails, _ = file_session(spec, ops, inp.get("refpos", 0))
+        rc = report_replay(path, fails)
+        if len(ops) == 1:
+            sel, calls = ops[0]
+            real = real_obs(spec, sel, calls)
+            model, wf, specside = split_obs(common.run_driver("C02", [obs_line(spec, sel, calls)])[0])
+            print(f"[C02] code : {real}\n[C02] model: {model}\n[C02] spec : {specside}  (wf={wf})")
+        cleanup_tmp()
+        return rc
     spec, sel, calls = dec_spec(inp["spec"]), dec_sel(inp["sel"]), dec_calls(inp.get("calls"))
     real = real_obs(spec, sel, calls)
     ans = common.run_driver("C02", [obs_line(spec, sel, calls)])[0]
